@@ -78,7 +78,7 @@ PROTO_VERSION = "1.4.0"
 ROUTES = ["unary", "init", "exchange"]
 KINDS = ["unary", "producer", "exchanger", "unknown"]
 PARSE_EXC = ["arrowInvalid", "osError", "arrowNotImplemented", "arrowKeyError", "arrowTypeError", "arrowOther",
-             "ipcError", "unicodeDecode", "stopIteration"]
+             "ipcError", "ipcErrorLate", "unicodeDecode", "stopIteration"]
 META = ["noMethodKey", "badMethodUtf8", "noVersionKey", "badVersion", "methodMismatch", "protocolVersion"]
 BODIES = (["valid"] + [f"parseFail:{e}" for e in PARSE_EXC] + [f"badMeta:{m}" for m in META]
           + ["badParams:mismatch", "badParams:badNames", "cancel"])
@@ -89,9 +89,21 @@ AUTHS = ["ok", "rejected"]
 TOKENS = ["valid", "tampered", "missing"]
 BEHS = ["ok", "raises", "turnRaises", "overshoot"]
 
+# what `_read_request` does with a validation failure of the request batch (asked of the model's extracted tables at
+# the start of a run): re-raised as RpcError("ProtocolError") or left as IPCError
+SHAPE = {"readWrapsBatchValidation": False, "readWrapsKwargs": False}
+
+
+def expected_exc_name(cls: str, route: str) -> str | None:
+    """`exception_type` the server's Arrow error body should carry when reading the body fails with class `cls`."""
+    if cls == "ipcError" and route != "exchange" and SHAPE["readWrapsBatchValidation"]:
+        return "RpcError"
+    return EXC_TYPE_NAME.get(cls)
+
+
 EXC_TYPE_NAME = {
     "arrowInvalid": "ArrowInvalid", "osError": "OSError", "arrowNotImplemented": "ArrowNotImplementedError",
-    "arrowKeyError": "ArrowKeyError", "arrowTypeError": "ArrowTypeError", "ipcError": "IPCError",
+    "arrowKeyError": "ArrowKeyError", "arrowTypeError": "ArrowTypeError", "ipcError": "IPCError", "ipcErrorLate": "IPCError",
     "unicodeDecode": "UnicodeDecodeError", "stopIteration": "StopIteration",
 }
 
@@ -299,10 +311,13 @@ def classify_read3(body: bytes, route: str) -> tuple[str, Any, dict[bytes, bytes
     try:
         r = ipc.open_stream(pa.BufferReader(body))
         b, md = r.read_next_batch_with_custom_metadata()
+        first_invalid = False
         try:
             b.validate(full=True)
         except pa.ArrowInvalid:
-            return "fail", "ipcError", None
+            if route == "exchange" or not SHAPE["readWrapsBatchValidation"]:
+                return "fail", "ipcError", None
+            first_invalid = True   # `_read_request` drains the rest (skipping further invalid batches), then refuses
         if route != "exchange":
             while True:
                 try:
@@ -312,7 +327,10 @@ def classify_read3(body: bytes, route: str) -> tuple[str, Any, dict[bytes, bytes
                 try:
                     nb.validate(full=True)
                 except pa.ArrowInvalid:
-                    return "fail", "ipcError", None
+                    if not first_invalid:
+                        return "fail", "ipcErrorLate", None
+            if first_invalid:
+                return "fail", "ipcError", None
             late = True
             mdd = dict(md) if md is not None else {}
             _ = [f.name for f in b.schema]
@@ -857,7 +875,7 @@ def check_case(ctx: Any, env: Env, c: dict[str, str], req: dict[str, Any], sub: 
             ctx.mismatch(case, model, got, "respond: model vs implementation")
         elif req["predicted_exc"] is not None and obs["status"] == 400 and not defects[:-1]:
             # only the malformed body is wrong: the server's error batch names the class it caught
-            want = EXC_TYPE_NAME.get(req["predicted_exc"])
+            want = expected_exc_name(req["predicted_exc"], c["route"])
             if want is not None and obs["err_type"] != want:
                 ctx.mismatch(case, {"exception": want}, {"exception": obs["err_type"]}, "exception class: harness prediction vs server")
     if lean_spec is not None:
@@ -980,6 +998,8 @@ def _setup(ctx: Any) -> tuple[Env, ParsePool, dict[str, tuple[bytes, str]]]:
     logging.getLogger("falcon").setLevel(logging.CRITICAL)
     logging.getLogger("vgi_rpc").setLevel(logging.CRITICAL)
     logging.getLogger("vgi_rpc.http").setLevel(logging.CRITICAL)
+    if ctx.driver is not None:
+        SHAPE.update(ctx.driver.call("C15.shape", {}))
     env = Env()
     pool = ParsePool(env, ctx.rng, ctx)
     bases = _bases(env)
@@ -1039,8 +1059,8 @@ def run(ctx: Any) -> None:
                 ctx.mismatch(case, {"ParseExc": PARSE_EXC}, {"raised": cls}, "pyarrow raised a class outside the model's closed list")
             elif obs["status"] < 500 and (obs["status"] != 400 or obs["dispatched"]):
                 _fail(ctx, case, f"C15:status:{obs['status']}-for-malformed:{route}", f"body that fails to read ({cls}) answered {obs['status']}")
-            elif not late and obs["status"] == 400 and EXC_TYPE_NAME.get(cls) and obs["err_type"] != EXC_TYPE_NAME[cls]:
-                ctx.mismatch(case, {"exception": EXC_TYPE_NAME[cls]}, {"exception": obs["err_type"]},
+            elif not late and obs["status"] == 400 and expected_exc_name(cls, route) and obs["err_type"] != expected_exc_name(cls, route):
+                ctx.mismatch(case, {"exception": expected_exc_name(cls, route)}, {"exception": obs["err_type"]},
                              "exception class: harness prediction vs server")
 
 
